@@ -106,6 +106,31 @@ Regions(msg, rs, siglen) ==
      [from |-> L,      to |-> L + 10,                      must |-> "nopanic", what |-> "sigrr-header"],   \* AMBIG: owner/type/class/TTL/RDLENGTH of the SIG RR are neither message nor RDATA
      [from |-> L + 11, to |-> L + 10 + Len(rs) + siglen,   must |-> "reject",  what |-> "sig-rdata"] >>
 
+(* The fields of the SIG RDATA in front of the signature, by name: 0-based      *)
+(* [from, to] ranges in a correctly laid out result.  "Any octet of the SIG     *)
+(* RDATA altered" is any OTHER VALUE of the octet, not only the eight values a  *)
+(* single bit away: the one-octet fields (algorithm, labels) range over all of  *)
+(* 0..255 -- numbers of algorithms the library supports, knows by name only     *)
+(* (RSAMD5 1, DSA 3, ECC-GOST 12, ED448 16, INDIRECT 252 ...), or not at all -- *)
+(* and each must be refused with an error, not a panic.                         *)
+RdataFields(msg, rs) ==
+  LET b == Len(msg) + 11 IN
+  << [from |-> b,      to |-> b + 1,            must |-> "reject", what |-> "type-covered"],
+     [from |-> b + 2,  to |-> b + 2,            must |-> "reject", what |-> "algorithm"],
+     [from |-> b + 3,  to |-> b + 3,            must |-> "reject", what |-> "labels"],
+     [from |-> b + 4,  to |-> b + 7,            must |-> "reject", what |-> "original-ttl"],
+     [from |-> b + 8,  to |-> b + 11,           must |-> "reject", what |-> "expiration"],
+     [from |-> b + 12, to |-> b + 15,           must |-> "reject", what |-> "inception"],
+     [from |-> b + 16, to |-> b + 17,           must |-> "reject", what |-> "key-tag"],
+     [from |-> b + 18, to |-> b + Len(rs) - 1,  must |-> "reject", what |-> "signer"] >>
+
+(* What Sign returns belongs to the caller: it is a VALUE.  Whatever the        *)
+(* library does afterwards -- signing the next message, with the same or        *)
+(* another SIG value -- the octets a caller holds are the ones he was given     *)
+(* (atReturn: as they were when Sign returned; later: as they are after later   *)
+(* calls into the library).  Trace_Sig0: field `stable' of a sign event.        *)
+ResultStable(atReturn, later) == later = atReturn
+
 -----------------------------------------------------------------------------
 (* The verifier's view of received octets: the last record is the SIG RR.      *)
 (* AMBIG: the statement does not say that a compressed signer name must be     *)
